@@ -213,6 +213,17 @@ func (s *PathState) compute(v ssa.Value) *Term {
 		return mk("indexaddr", "", "&"+a.K+"["+i.K+"]", v, a, i)
 	case *ssa.Index:
 		a, i := s.T(x.X), s.T(x.Index)
+		if n, ok := i.ConstInt(); ok {
+			// element of a constant table / of a local array whose cells were stored one by one
+			if ct := tableOf(x.X); ct != nil && !ct.IsMap && n >= 0 && int(n) < len(ct.Vals) {
+				return ct.Vals[n]
+			}
+			if a.Op == "load" && len(a.Args) == 1 && a.Args[0] != nil && a.Args[0].Op == "alloc" {
+				if ev, ok := s.mem["&"+a.Args[0].K+"["+i.K+"]"]; ok && ev != nil {
+					return ev
+				}
+			}
+		}
 		return mk("index", "", a.K+"["+i.K+"]", v, a, i)
 	case *ssa.Lookup:
 		a, i := s.T(x.X), s.T(x.Index)
@@ -321,6 +332,9 @@ func (s *PathState) clobber(t *Term) {
 }
 
 func (s *PathState) load(in *ssa.UnOp) *Term {
+	if t := s.tableLoad(in.X); t != nil {
+		return t
+	}
 	a := s.T(in.X)
 	if v, ok := s.mem[a.K]; ok {
 		return v
@@ -385,6 +399,12 @@ func (s *PathState) callEvent(kind string, in ssa.CallInstruction) Event {
 		if _, isB := cc.Value.(*ssa.Builtin); !isB {
 			// dynamic call through a function value: record the function value term as Aux
 			ev.Callee = "dynamic " + s.T(cc.Value).K
+			if ft := s.T(cc.Value); ft != nil && ft.Op == "fn" {
+				if f, ok := ft.V.(*ssa.Function); ok {
+					ev.Fn = f
+					ev.Callee = f.String()
+				}
+			}
 			if mc, ok := cc.Value.(*ssa.MakeClosure); ok {
 				ev.Fn = mc.Fn.(*ssa.Function)
 				ev.Callee = ev.Fn.String()
@@ -1319,6 +1339,12 @@ func (s *PathState) exec(bi, ii int, target ssa.Instruction, emit func(*PathStat
 					s2.exec(i, k+1, target, emit, drop)
 				}
 				return
+			}
+			if lk, ok := in.(*ssa.Lookup); ok {
+				if ct := tableOf(lk.X); ct != nil && ct.IsMap {
+					s.forkLookup(lk, ct, func(s2 *PathState) { s2.exec(i, k+1, target, emit, drop) }, drop)
+					return
+				}
 			}
 			if g := pureCallee(in); g != nil {
 				call := in.(*ssa.Call)
